@@ -4,7 +4,7 @@
    FIFO streams between them restricted to the tokens that concern this HTLC (its `update_add`, its
    removal, every `commitment_signed`, every `revoke_and_ack` — in flight, pending release, or owed),
    and the two AwaitingRemoteRevoke flags.  Every protocol event acts on this configuration by one of
-   the seven moves below, which are written with the GENERATED per-state tables.  `goodList` is the set
+   the eight moves below, which are written with the GENERATED per-state tables.  `goodList` is the set
    of configurations reachable under the moves (computed by closure; 106 entries); `good_closed` (by
    `decide`) re-proves that it is closed, so a flipped table entry breaks it.  All the per-HTLC facts
    the agreement proof needs are then `decide`d over `goodList`. -/
@@ -68,8 +68,31 @@ def mRecvI (c : Cfg) : Option Cfg :=
   | .raa :: rest => if c.awI then some { c with i := c.i.bind raaIn, fwd := rest, awI := false } else none
   | .rem _ :: _ => none
 
+/-- insert a token immediately before the (first) commitment_signed of a stream -/
+def insBefore (t : Tok) : List Tok → List Tok
+  | [] => []
+  | .cs :: r => t :: .cs :: r
+  | x :: r => x :: insBefore t r
+
+/-- the connection drops (mirrors `remove_uncommitted_htlcs_and_mark_paused` on both sides and what
+    `channel_reestablish` will retransmit): a RemoteAnnounced copy is forgotten and its `update_add_htlc`
+    goes back in front of the commitment_signed that will be retransmitted; a RemoteRemoved reverts to
+    Committed and the removal goes back in front of its commitment_signed; commitment_signed and
+    revoke_and_ack not yet processed by the peer keep their order -/
+def discO : Option OutState → Option OutState
+  | some (.remoteRemoved _) => some .committed
+  | o => o
+def discBwd (o : Option OutState) (bwd : List Tok) : List Tok :=
+  match o with | some (.remoteRemoved ok) => insBefore (.rem ok) bwd | _ => bwd
+
+def mDisc (c : Cfg) : Option Cfg := some
+  { c with i := if c.i = some .remoteAnnounced then none else c.i,
+           o := discO c.o,
+           fwd := if c.i = some .remoteAnnounced then insBefore .add c.fwd else c.fwd,
+           bwd := discBwd c.o c.bwd }
+
 def moves : List (Cfg → Option Cfg) :=
-  [mCommitO false, mCommitO true, mCommitI none, mCommitI (some true), mCommitI (some false), mRecvO, mRecvI]
+  [mCommitO false, mCommitO true, mCommitI none, mCommitI (some true), mCommitI (some false), mRecvO, mRecvI, mDisc]
 
 def Cfg.init : Cfg := { o := none, i := none, fwd := [], bwd := [], awO := false, awI := false }
 
@@ -313,5 +336,46 @@ theorem good_stats_received : ∀ c, good c = true → (c.bwd.contains (.rem tru
 theorem good_stats_holder : ∀ c, good c = true → (!(c.fwd.head? == some .cs) || !inclT c.o ||
     (match c.i with | some i => i.inNextStats true false | none => false)) = true :=
   good_all _ (by decide)
+
+/-! ### canonical shape of the token streams (used to identify the retransmission stream after a disconnect) -/
+
+/-- `[raa]? ++ ([add]? ++ [cs])? ++ [raa]?` -/
+def canonF (rb hc ha ra : Bool) : List Tok :=
+  (if rb then [.raa] else []) ++ (if hc then (if ha then [.add] else []) ++ [.cs] else []) ++ (if ra then [.raa] else [])
+/-- `[raa]? ++ ([rem ok]? ++ [cs])? ++ [raa]?` -/
+def canonB (rb hc : Bool) (hr : Option Bool) (ra : Bool) : List Tok :=
+  (if rb then [.raa] else []) ++ (if hc then (match hr with | some ok => [.rem ok] | none => []) ++ [.cs] else [])
+    ++ (if ra then [.raa] else [])
+
+/-- a revoke_and_ack precedes the commitment_signed of the stream -/
+def raaBefore (l : List Tok) : Bool := l.contains .cs && (l.takeWhile (fun t => t != .cs)).contains .raa
+def raaAfter (l : List Tok) : Bool := l.contains .raa && !raaBefore l
+def remOf (l : List Tok) : Option Bool := if l.contains (.rem true) then some true else if l.contains (.rem false) then some false else none
+def lrOf (i : Option InState) : Option Bool := match i with | some (.localRemoved ok) => some ok | _ => none
+
+theorem good_fwd_shape : ∀ c, good c = true →
+    (c.fwd == canonF (raaBefore c.fwd) (c.fwd.contains .cs) (c.fwd.contains .add) (raaAfter c.fwd)) = true :=
+  good_all _ (by decide)
+
+theorem good_bwd_shape : ∀ c, good c = true →
+    (c.bwd == canonB (raaBefore c.bwd) (c.bwd.contains .cs) (remOf c.bwd) (raaAfter c.bwd)) = true :=
+  good_all _ (by decide)
+
+/-- what the disconnect rewrites presuppose, and which `update_add_htlc` / removal a retransmitted batch carries -/
+theorem good_disc_fwd : ∀ c, good c = true →
+    ((!(c.i == some .remoteAnnounced) || (c.fwd.contains .cs && !c.fwd.contains .add)) &&
+     (!c.fwd.contains .cs || ((c.fwd.contains .add || c.i == some .remoteAnnounced) == (c.o == some .localAnnounced)))) = true :=
+  good_all _ (by decide)
+
+theorem good_disc_bwd : ∀ c, good c = true →
+    ((match c.o with | some (.remoteRemoved ok) => c.bwd.contains .cs && remOf c.bwd == none && lrOf c.i == some ok | _ => true) &&
+     (!c.bwd.contains .cs ||
+       ((match c.o with | some (.remoteRemoved ok) => some ok | _ => remOf c.bwd) == lrOf c.i))) = true :=
+  good_all _ (by decide)
+
+theorem insBefore_canonF (rb ra : Bool) : insBefore .add (canonF rb true false ra) = canonF rb true true ra := by
+  cases rb <;> cases ra <;> rfl
+theorem insBefore_canonB (ok rb ra : Bool) : insBefore (.rem ok) (canonB rb true none ra) = canonB rb true (some ok) ra := by
+  cases rb <;> cases ra <;> rfl
 
 end Ldk.Chan
